@@ -290,3 +290,13 @@ pub fn replay(ctx: &mut Ctx, stage: &str, case: &Value) -> Result<(), String> {
     let c: Case = serde_json::from_value(case.clone()).map_err(|e| format!("bad case: {e}"))?;
     check_any(ctx, &c, stage != "values")
 }
+
+/// valid encodings for the hostile-input engine (C15)
+pub fn encoded() -> impl Strategy<Value = Vec<u8>> {
+    case().prop_map(|mut c| {
+        if let Some(a) = &mut c.att {
+            a.1 %= 300;
+        }
+        build(&c).map(|a| a.to_vec()).unwrap_or_default()
+    })
+}
